@@ -811,6 +811,9 @@ class ExprMixin:
 
     def ev_Attribute(self, node, st, want):
         base = self.ev(node.value, st)
+        if isinstance(base, SV) and isinstance(base.ty, (T.Seq, T.Set, T.Map)) and node.attr in MUTATORS | {"get", "keys", "items", "values", "copy"}:
+            # bound method used as a value (`wpop = work.pop`): re-dispatched as a method call at the call site
+            return FuncVal(f"{ast.unparse(node)}", "bound", node)
         if isinstance(base, SV) and isinstance(base.ty, T.Rec) and node.attr in base.ty.fields:
             return SV(base.ty.get(base.t, node.attr), base.ty.fields[node.attr])
         if isinstance(base, SV) and isinstance(base.ty, T.Union):
